@@ -546,6 +546,12 @@ def _equalsDefault(component, defaultValue):
     a BIT STRING inside a CHOICE) with an error instead of `False`.
     """
     try:
+        if isinstance(defaultValue, univ.Real):
+            # a Python float compares with a REAL through floats; the
+            # value object made of it compares exactly, which is what
+            # the value object path does
+            component = defaultValue.clone(component)
+
         return component == defaultValue
 
     except error.PyAsn1Error:
